@@ -25,9 +25,9 @@ namespace {
 using cd = std::complex<double>;
 
 // ------------------------------------------------------------------------------------------- content classes
-enum HCls { H_FIRST = 0, H_LAST, H_SPARSE, H_SYMM, H_RANDOM, H_NCLS };
+enum HCls { H_FIRST = 0, H_LAST, H_SPARSE, H_SYMM, H_RANDOM, H_TINYSCALE, H_BIGSCALE, H_NEARSYM, H_NCLS };
 const char* h_name(int c) {
-    static const char* n[] = {"first-tap-only", "last-tap-only", "sparse", "symmetric", "random"};
+    static const char* n[] = {"first-tap-only", "last-tap-only", "sparse", "symmetric", "random", "random*1e-12..-40", "random*1e6..40", "near-symmetric"};
     return (c >= 0 && c < H_NCLS) ? n[c] : "?";
 }
 constexpr int X_SPARSE = S_NCLASSES;   // kit classes 0..8 plus a sparse train of impulses
@@ -49,6 +49,24 @@ std::vector<cd> gen_coeffs(Rng& r, int nh, int cls, bool cplx) {
     case H_SYMM:
         for (int k = 0; k < (nh + 1) / 2; ++k) h[size_t(k)] = h[size_t(nh - 1 - k)] = amp();
         break;
+    case H_TINYSCALE: {   // the defining sum is scale-free: an absolute threshold anywhere in the code shows up here
+        const double sc = std::pow(10.0, -double(r.range(12, 40)));
+        for (auto& v : h) v = amp() * sc;
+        break;
+    }
+    case H_BIGSCALE: {
+        const double sc = std::pow(10.0, double(r.range(6, 40)));
+        for (auto& v : h) v = amp() * sc;
+        break;
+    }
+    case H_NEARSYM: {   // symmetric up to a perturbation far below the taps' scale (but not zero)
+        for (int k = 0; k < (nh + 1) / 2; ++k) h[size_t(k)] = h[size_t(nh - 1 - k)] = amp();
+        const double tiny = std::pow(10.0, -double(r.range(3, 20)));
+        const size_t j = size_t(r.range(0, nh - 1));
+        if (r.coin()) h[j] += cd(tiny, 0);                 // one tap off by a tiny absolute amount
+        else { h[j] = cd(tiny, 0); h[size_t(nh - 1) - j] = (2 * j + 1 == size_t(nh)) ? h[j] : cd(0, 0); }   // tiny tap without a mirror partner
+        break;
+    }
     default:
         for (auto& v : h) v = amp();
     }
